@@ -16,8 +16,7 @@ plugin *i* is shown the original overlaid with the adjustments of plugins 0 … 
 container being updated (`C04_update_step`), and plugin *i* is shown exactly what the
 state-free specification walk (`Nri.UpdateWalk.walk`, the value the correspondence run's
 `specC04` evaluates) yields for the updated container over the plugins before it
-(`C04_update`; hypothesis: no ignore-failure update names one item twice, implied by the
-driver's guard).
+(`C04_update`; no hypothesis on the chain).
 
 **The last sentence of the property** — "what a plugin is shown therefore always agrees with
 what the runtime would obtain by applying the result combined so far" — is `C04_view_agrees`:
